@@ -23,6 +23,10 @@
    reference.  Single calls additionally give homogeneity
    A(2^e J0) 2^-e = A(J0) for every scale exponent of the class alphabet (statement's range:
    2^-39..2^48 float32, 2^-332..2^331 float64) where the model demands it, with a derived allowance.
+   UPGrad / DualProj / CAGrad also with NON-DEFAULT thresholds norm_eps # reg_eps in both orders (powers of
+   two: the model decides the side of norm_eps exactly from maxdiag(G0) <= sigma_max^2 <= tr(G0)), over scale
+   exponents that put sigma_max above both, between them and below both; the identity is demanded between
+   scales on the SAME side of norm_eps (below it the weights are constant by design), never across it.
 3. C->S: seeded random histories with random kinds / shapes / contents / scales are run, logged and
    judged by TLC (TraceAggContract.tla) with the same contract and memo operators.
 """
@@ -127,7 +131,9 @@ def check_mixed_dtype_coverage(scenarios: list[dict]) -> None:
 
 def check_homogeneity(ctx: Ctx, singles: list[tuple[dict, dict]]) -> None:
     """singles: (scenario, result) of single-call scenarios.  Groups by (kind, base, dtype) and
-    compares every scale exponent with the reference e = 0."""
+    compares every scale exponent with the reference e = 0 (hom = "demand": both sides >= norm_eps), resp.
+    - UPGrad / DualProj / CAGrad below their norm_eps (hom = "demand_below") - with the largest exponent of
+    the group that the model places below norm_eps: never across norm_eps."""
     groups: dict = {}
     for scn, res in singles:
         st = scn["steps"][0]
@@ -135,20 +141,33 @@ def check_homogeneity(ctx: Ctx, singles: list[tuple[dict, dict]]) -> None:
         if st["expect"] != "vector" or st["hom"] == "na" or res["out"] is None:
             continue
         groups.setdefault((scn["kind"]["name"], tuple(c["dims"]), c["var"], c["dtype"]), []).append((scn, st, res))
+    sided = []
     for gkey, members in sorted(groups.items()):
+        for m in members:
+            if m[1]["hom"] not in ("demand", "demand_below"):
+                ctx.count("hom_skipped:" + m[1]["hom"])
+        above = [m for m in members if m[1]["hom"] == "demand"]
+        below = [m for m in members if m[1]["hom"] == "demand_below"]
         ref = [m for m in members if m[1]["c"]["e"] == 0]
-        if len(ref) != 1:
+        if len(ref) != 1 and ctx.violations:
+            ctx.count("hom_group_without_reference_after_a_violation")      # the e = 0 call itself failed: reported
+            above = []
+        elif len(ref) != 1 and (above or len(members) > 2):
             raise MachineryError(f"homogeneity group {gkey} has no unique reference class e = 0")
-        rscn, rst, rres = ref[0]
+        if above:
+            if ref[0] not in above:
+                raise MachineryError(f"homogeneity group {gkey}: the reference class e = 0 is not one the model demands")
+            sided.append((ref[0], above))
+        if len(below) >= 2:
+            sided.append((max(below, key=lambda m: m[1]["c"]["e"]), below))
+    for (rscn, rst, rres), members in sided:
         kind = rscn["kind"]
-        a0 = torch.tensor(rres["out"], dtype=torch.float64)
+        e0 = rst["c"]["e"]
+        a0 = torch.ldexp(torch.tensor(rres["out"], dtype=torch.float64), torch.tensor(-e0))
         allow = None
         for scn, st, res in members:
             c = st["c"]
-            if c["e"] == 0:
-                continue
-            if st["hom"] != "demand":
-                ctx.count("hom_skipped:" + st["hom"])
+            if c["e"] == e0:
                 continue
             if allow is None:
                 allow, how = lib.hom_allowance(kind, rst["c"], st["homK"])
@@ -159,6 +178,11 @@ def check_homogeneity(ctx: Ctx, singles: list[tuple[dict, dict]]) -> None:
             dev = (ae - a0).abs()
             ctx.evaluations += 1
             ctx.count("hom_compared")
+            if st["hom"] == "demand_below":
+                ctx.count("hom_compared_below_norm_eps")
+            if kind.get("alt") in lib.EPS_SCALARS:
+                # which region of (norm_eps, reg_eps) the pair probes: sides of reg_eps of the class and of the reference
+                ctx.count(f"hom_compared_eps:alt{kind['alt']}:{st['hom']}:reg_{st.get('regside')}_vs_{rst.get('regside')}")
             if c["var"] != "zero":
                 ctx.nontrivial(("hom", kind["name"], tuple(c["dims"]), c["var"], c["dtype"], c["e"]))
             worst = float((dev / allow.clamp_min(1e-300)).max()) if dev.numel() else 0.0
@@ -168,8 +192,10 @@ def check_homogeneity(ctx: Ctx, singles: list[tuple[dict, dict]]) -> None:
                 if not _room(ctx, kind["name"], "not_homogeneous"):
                     continue
                 key = f"{kind['name']}:not_homogeneous:{lib.class_text(c)}"
-                ctx.violation(key, f"{kind['name']}: A(2^{c['e']} J) * 2^{-c['e']} = {ae.tolist()} but A(J) = "
-                                   f"{a0.tolist()} for J = {lib.base_matrix(c)} ({c['dtype']}); deviation "
+                ctx.violation(key, f"{kind['name']}: A(2^{c['e']} J) * 2^{-c['e']} = {ae.tolist()} but "
+                                   f"A(2^{e0} J) * 2^{-e0} = "
+                                   f"{a0.tolist()} for J = {lib.base_matrix(c)} ({c['dtype']}; both "
+                                   f"{'below' if st['hom'] == 'demand_below' else 'at or above'} norm_eps); deviation "
                                    f"{dev.tolist()} exceeds the allowance {allow.tolist()} (64 eps K |w| colsum, K={st['homK']})",
                               {"kind": "hom", "scenario": _inject(scn), "reference": _inject(rscn)})
 
@@ -227,7 +253,8 @@ def run(ctx: Ctx, replay: str | None) -> None:
                 "tensor object rewritten in place, as temporaries, as re-wrapped memory - and calls of other instances); "
                 "all histories of <= 3 calls over the history alphabets of the five history shapes and all single calls "
                 "over the full class alphabet are enumerated by TLC and replayed; non-trivial = a rejected class, a "
-                "non-zero class at a scale exponent != 0 whose homogeneity is demanded, or a history of >= 2 steps (both "
+                "non-zero class at a scale exponent != 0 whose homogeneity is demanded (UPGrad / DualProj / CAGrad: "
+                "between scales on the same side of the kind's norm_eps, default and non-default norm_eps != reg_eps), or a history of >= 2 steps (both "
                 "dtypes on one instance, also for kinds with a parameter vector, whose entries no binary format "
                 "represents) whose last call returns a vector that is compared with a fresh instance in a fresh process")
     ctx.assumptions += [
@@ -290,6 +317,9 @@ def _run(ctx: Ctx, replay: str | None) -> None:
                                 res.prints.get("ALT", [None])[0], scenarios)
     if bad:
         raise MachineryError("parameter vectors of the model and of the binding differ: " + "; ".join(bad))
+    bad = lib.check_eps_table(res.prints.get("EPSK", [None])[0])
+    if bad:
+        raise MachineryError("(norm_eps, reg_eps) of the model and of the binding differ: " + "; ".join(bad))
     check_mixed_dtype_coverage(scenarios)
     bad = lib.check_catalogue_bounds()
     if bad:
@@ -372,6 +402,11 @@ def _run(ctx: Ctx, replay: str | None) -> None:
                                  "observed": [o["outcome"] for o in results[i]["obs"]]}})
     if not ctx.counters.get("hom_compared") or not ctx.counters.get("memo_compared"):
         raise MachineryError("vacuous replay: no homogeneity / memo comparison was made")
+    if not ctx.violations:
+        # norm_eps # reg_eps: the identity must have been compared ACROSS reg_eps on one side of norm_eps
+        for need in ("hom_compared_eps:alt2:demand:reg_below_vs_above", "hom_compared_eps:alt3:demand_below:reg_below_vs_above"):
+            if not ctx.counters.get(need):
+                raise MachineryError(f"vacuous replay: no homogeneity comparison in the region '{need}'")
     for agg in lib.PARAM_AGGS:
         if not ctx.counters.get("memo_mixed_dtype_histories:" + agg) and not ctx.violations:
             raise MachineryError(f"vacuous replay: no mixed-dtype history of {agg} with a parameter vector reached a "
